@@ -1486,11 +1486,29 @@ for _w in ("blackman", "hamming", "bartlett"):
     model(getattr(np, _w))(_window_model(_w))
 
 
+def _matrow(M, ys, idx):
+    r, j = idx
+    out = None
+    for rr in range(M.shape[0] - 1, -1, -1):
+        row = z3.Sum([term(float(M[rr, kk])) * to_real(ys((z3.IntVal(kk), j))) for kk in range(M.shape[1])])
+        out = row if out is None else z3.If(A.T(r) == rr, row, out)
+    return out
+
+
 @model(np.matmul)
 def _matmul(I, a, k):
     """opaque product with exact shape for (m,) @ (m, n) and (p, m) @ (m, n); operands are logged"""
     if not _anysym(a, k):
         return NotImplemented
+    if isinstance(a[0], np.ndarray) and a[0].ndim == 2 and a[0].dtype.kind in "fiu" and a[0].shape[1] <= 16:
+        # a small concrete matrix times a symbolic one: exact linear combinations
+        M = a[0]
+        y = A.as_sarr(a[1])
+        if y.ndim == 2 and A.conc(y.shape[0]) == M.shape[1]:
+            ys = y.snapshot()
+            return SArr(np.result_type(M.dtype, y.dtype), (M.shape[0], y.shape[1]),
+                        lambda idx: (lambda r, j: z3.Sum([term(float(M[rr, kk])) * to_real(ys((z3.IntVal(kk), j))) for rr in [r] for kk in range(M.shape[1])]))(A.conc(idx[0]), idx[1])
+                        if A.conc(idx[0]) is not None else _matrow(M, ys, idx))
     x, y = A.as_sarr(a[0]), A.as_sarr(a[1])
     if x.ndim == 1 and y.ndim == 2:
         A.oblige("matmul.inner", A.T(x.shape[0]) == A.T(y.shape[0]), "matmul inner dimensions")
